@@ -109,6 +109,8 @@ def mutate(obj, op, labels):
     """Apply a mutation op (C09 alphabet plus structure mutations). Outcome is irrelevant; exceptions are swallowed."""
     k = op[0]
     n = len(labels)
+    if any(isinstance(part, list) and part[:1] == ['under'] for part in op[1:2]):
+        return        # writing to a private `_name` slot is not a public operation (C09 applies it under strict only)
     if k == 'list-append':
         lst = obj.__dict__.get(op[1])
         if isinstance(lst, list):
@@ -137,7 +139,7 @@ def mutate(obj, op, labels):
         return
     if k == 'trace':
         tr = obj.__dict__.get('_trace')
-        if tr is not None and n:
+        if isinstance(tr, np.ndarray) and n:
             t = tr[op[1] % n]
             if type(t).__name__ != 'Trace':
                 return
@@ -145,7 +147,7 @@ def mutate(obj, op, labels):
             t.names = list(t.names) + ['more'] if op[2] else t.names
         return
     if k == 'solve':
-        if 'lags' not in obj.__dict__:
+        if not hasattr(type(obj), 'solve'):
             return           # plain containers have no solver
         kw = {'max_iter': 3, 'failures': 'ignore', 'errors': 'ignore'}
         if op[1] and '_trace' in obj.__dict__:
@@ -349,6 +351,6 @@ def phases(tier):
     quick = tier == 'quick'
     return [
         Phase('fixed-family', check_case, gen=gen_fixed(), exhaustive=True),
-        Phase('copy-histories', check_case, strategy=strategy('copy'), examples=1500 if quick else 40000),
-        Phase('sibling-histories', check_case, strategy=strategy('sibling'), examples=600 if quick else 15000),
+        Phase('copy-histories', check_case, strategy=strategy('copy'), examples=4000 if quick else 40000),
+        Phase('sibling-histories', check_case, strategy=strategy('sibling'), examples=1500 if quick else 15000),
     ]
